@@ -169,13 +169,6 @@ Proof. unfold code3_ok, code_ok. intros H. apply andb_true_iff in H. destruct H 
 Lemma mapM_ext {A B} (f g : A -> option B) l : (forall x, f x = g x) -> mapM f l = mapM g l.
 Proof. intros H. induction l; cbn; [reflexivity|]. rewrite H, IHl. reflexivity. Qed.
 
-Definition ps_of_group (g : wgroup) : propstat :=
-  {| ps_props := wg_props g; ps_status := {| st_code := wg_code g; st_text := wg_reason g |} |}.
-Definition resp_of_wresp (r : wresp) (hs : list string) : response :=
-  {| r_hrefs := hs; r_propstats := map ps_of_group (wr_groups r); r_desc := wr_desc r;
-     r_status := option_map (fun ct => {| st_code := fst ct; st_text := snd ct |}) (wr_status r);
-     r_error := None |}.
-
 Lemma in_schema l : In l ["response"; "href"; "propstat"; "prop"; "status"; "responsedescription"; "error"; "location"; "sync-token"]%string ->
   In (ns_dav, l) dav_schema.
 Proof. intros H. cbn in H. unfold dav_schema, dav. cbn. intuition (subst; auto 12). Qed.
@@ -207,12 +200,6 @@ Qed.
 
 Section Variants.
 Variable cd : codecs.
-
-Definition resp_opt (r : wresp) : option response :=
-  match mapM (href_dec cd) (wr_hrefs r) with
-  | None => None
-  | Some hs => Some (resp_of_wresp r hs)
-  end.
 
 Definition w_resp_kids (r : wresp) : list xtree :=
   map (fun h => Elem (dav "href") [] (text_nodes h)) (wr_hrefs r)
@@ -268,7 +255,7 @@ Proof.
 Qed.
 
 Lemma dec_response_wresp r :
-  wresp_ok r = true -> dec_response cd (root_kids (w_resp r)) = resp_opt r.
+  wresp_ok r = true -> dec_response cd (root_kids (w_resp r)) = resp_opt cd r.
 Proof.
   intros H. unfold wresp_ok in H. rewrite !andb_true_iff in H. destruct H as [[HJ HG] HS].
   unfold w_resp. cbn [root_kids]. fold (w_resp_kids r). unfold dec_response, dec_error, dec_location_ok.
@@ -299,12 +286,6 @@ Proof.
   - reflexivity.
 Qed.
 
-Definition ms_opt (d : wdoc) : option multistatus :=
-  match mapM resp_opt (wd_resps d) with
-  | None => None
-  | Some rs => Some {| ms_responses := rs; ms_sync_token := wd_token d |}
-  end.
-
 Definition wtoken_part (t : string) : list xtree :=
   if str_empty t then [] else [Elem (dav "sync-token") [] [Text t]].
 Lemma kl_wresps_same rs :
@@ -327,7 +308,7 @@ Qed.
 (** Whatever the layout, the decoder of internal/elements.go recovers from a document of
     the independent writer exactly its content. *)
 Theorem dec_multistatus_wdoc d :
-  wdoc_ok d = true -> dec_multistatus cd (rfc_write d) = ms_opt d.
+  wdoc_ok d = true -> dec_multistatus cd (rfc_write d) = ms_opt cd d.
 Proof.
   intros H. unfold wdoc_ok in H. apply andb_true_iff in H. destruct H as [HJ HR].
   unfold rfc_write, dec_multistatus.
@@ -341,7 +322,7 @@ Proof.
   { unfold all_in_ns. apply forallb_forall. intros x Hx. apply in_map_iff in Hx. destruct Hx as (g & <- & _). reflexivity. }
   rewrite A. rewrite mapM_map. cbn [snd].
   rewrite forallb_forall in HR. unfold ms_opt.
-  assert (E : mapM (fun x => dec_response cd (root_kids (w_resp x))) (wd_resps d) = mapM resp_opt (wd_resps d)).
+  assert (E : mapM (fun x => dec_response cd (root_kids (w_resp x))) (wd_resps d) = mapM (resp_opt cd) (wd_resps d)).
   { revert HR. generalize (wd_resps d). induction l as [|r l IH]; intros HR; cbn [mapM]; [reflexivity|].
     rewrite dec_response_wresp by (apply HR; left; reflexivity).
     rewrite IH by (intros x Hx; apply HR; right; exact Hx). reflexivity. }
@@ -437,7 +418,7 @@ Qed.
 (** two writer responses with the same content decode to similar responses *)
 Lemma same_resp_sim known w1 w2 :
   same_resp_b cd known w1 w2 = true ->
-  match resp_opt w1, resp_opt w2 with
+  match resp_opt cd w1, resp_opt cd w2 with
   | Some r1, Some r2 => resp_sim known r1 r2
   | None, None => True
   | _, _ => False
@@ -466,7 +447,7 @@ Qed.
 
 Lemma same_content_decodes known d1 d2 :
   same_content_b cd known d1 d2 = true ->
-  match ms_opt d1, ms_opt d2 with
+  match ms_opt cd d1, ms_opt cd d2 with
   | Some m1, Some m2 => ms_sync_token m1 = ms_sync_token m2
                         /\ Forall2 (resp_sim known) (ms_responses m1) (ms_responses m2)
   | None, None => True
@@ -475,17 +456,17 @@ Lemma same_content_decodes known d1 d2 :
 Proof.
   intros H. unfold same_content_b in H. apply andb_true_iff in H. destruct H as [HT HR].
   apply String.eqb_eq in HT. apply list_eqb_forall2 in HR. unfold ms_opt. rewrite HT.
-  assert (G : match mapM resp_opt (wd_resps d1), mapM resp_opt (wd_resps d2) with
+  assert (G : match mapM (resp_opt cd) (wd_resps d1), mapM (resp_opt cd) (wd_resps d2) with
               | Some rs1, Some rs2 => Forall2 (resp_sim known) rs1 rs2
               | None, None => True
               | _, _ => False
               end).
   { induction HR as [|w1 w2 l1 l2 HW _ IH]; cbn [mapM]; [constructor|].
     pose proof (same_resp_sim known w1 w2 HW) as S.
-    destruct (resp_opt w1) as [r1|], (resp_opt w2) as [r2|]; try contradiction; [|exact I].
-    destruct (mapM resp_opt l1) as [rs1|], (mapM resp_opt l2) as [rs2|]; try contradiction; [|exact I].
+    destruct (resp_opt cd w1) as [r1|], (resp_opt cd w2) as [r2|]; try contradiction; [|exact I].
+    destruct (mapM (resp_opt cd) l1) as [rs1|], (mapM (resp_opt cd) l2) as [rs2|]; try contradiction; [|exact I].
     constructor; assumption. }
-  destruct (mapM resp_opt (wd_resps d1)), (mapM resp_opt (wd_resps d2)); try contradiction; [|exact I].
+  destruct (mapM (resp_opt cd) (wd_resps d1)), (mapM (resp_opt cd) (wd_resps d2)); try contradiction; [|exact I].
   split; [reflexivity | exact G].
 Qed.
 
@@ -503,7 +484,7 @@ Proof.
   intros W1 W2 HS. pose proof (same_content_decodes _ _ _ HS) as D.
   unfold run_call, client_object_list, find_collections, sync_collection, decode_object_list.
   rewrite !dec_multistatus_wdoc by assumption.
-  destruct (ms_opt d1) as [m1|], (ms_opt d2) as [m2|]; try contradiction; [|destruct c; reflexivity].
+  destruct (ms_opt cd d1) as [m1|], (ms_opt cd d2) as [m2|]; try contradiction; [|destruct c; reflexivity].
   destruct D as [DT DR]. destruct c.
   - f_equal. apply mapC_sim. eapply Forall2_weaken; [|exact DR]. intros a b. apply decode_object_sim.
   - f_equal. f_equal. apply mapC_sim. eapply Forall2_weaken; [|exact DR]. intros a b. apply find_one_sim.
@@ -511,6 +492,16 @@ Proof.
     rewrite (mapC_sim (sync_one cd reqpath) (ms_responses m1) (ms_responses m2))
       by (eapply Forall2_weaken; [|exact DR]; intros a b; apply (sync_one_sim fl)).
     reflexivity.
+Qed.
+
+(** What a client returns for a conformant document is what the per-resource reading
+    returns on its content ([content_call], the oracle's expectation for such documents). *)
+Theorem client_reads_content fl c reqpath d :
+  wdoc_ok d = true -> run_call cd fl c reqpath (rfc_write d) = content_call cd fl c reqpath d.
+Proof.
+  intros W. unfold run_call, content_call, client_object_list, find_collections, sync_collection.
+  rewrite dec_multistatus_wdoc by exact W.
+  destruct (ms_opt cd d); destruct c; reflexivity.
 Qed.
 
 Corollary client_reads_variants_kf fl c reqpath d1 d2 :
@@ -561,7 +552,7 @@ Qed.
 
 Lemma sync_one_member reqpath m :
   member_ok reqpath m ->
-  exists r, resp_opt (sync_resp m) = Some r /\ sync_one cd reqpath r = COk [sync_item_of m].
+  exists r, resp_opt cd (sync_resp m) = Some r /\ sync_one cd reqpath r = COk [sync_item_of m].
 Proof.
   destruct m as [p e s | p]; cbn [member_ok].
   - intros (HP & HE & HT & N1 & N2). unfold resp_opt. cbn [sync_resp wr_hrefs mapM]. rewrite HP.
@@ -589,7 +580,7 @@ Theorem sync_reads_canonical reqpath members token :
 Proof.
   intros H. unfold sync_collection. rewrite dec_multistatus_wdoc by apply sync_doc_ok.
   unfold ms_opt, sync_doc. cbn [wd_resps wd_token].
-  assert (G : exists rs, mapM resp_opt (map sync_resp members) = Some rs
+  assert (G : exists rs, mapM (resp_opt cd) (map sync_resp members) = Some rs
                          /\ mapC (sync_one cd reqpath) rs = COk (map (fun m => [sync_item_of m]) members)).
   { induction members as [|m l IH]; [exists []; split; reflexivity|].
     destruct (sync_one_member reqpath m (H m (or_introl eq_refl))) as (r & E1 & E2).
